@@ -110,10 +110,11 @@ def run(P: Program, R: Report, tier: str) -> None:
             node_var = norm(w.args[0])
             # the list that collects the same node next to the write (same statement list); a bulk write names it itself
             coll = node_var if call_name(w) == "_set_nodes_attr" and isinstance(w.args[0], ast.Name) else None
+            preset = coll is not None
             for blk in ast.walk(m.node):
                 for fld in ("body", "orelse"):
                     stmts = getattr(blk, fld, None)
-                    if coll is None and isinstance(stmts, list) and any(w in list(ast.walk(s)) for s in stmts if isinstance(s, ast.stmt)):
+                    if not preset and isinstance(stmts, list) and any(w in list(ast.walk(s)) for s in stmts if isinstance(s, ast.stmt)):
                         for s in stmts:
                             if isinstance(s, ast.Expr) and isinstance(s.value, ast.Call) and call_name(s.value) == "append" and s.value.args and norm(s.value.args[0]) == node_var:
                                 if not any(w in list(ast.walk(inner)) for inner in ast.walk(blk) if inner is not blk and isinstance(inner, (ast.If, ast.For, ast.While)) and any(s2 is s for s2 in ast.walk(inner))):
